@@ -631,6 +631,17 @@ def _reg_channels():
                       else _RG_SUBS[p[0]][1]().with_probability(p[1])),
            lambda p: K(G.k_random_gate(_RG_SUBS[p[0]][2](), p[1]), _RG_SUBS[p[0]][3]),
            lambda tier: prod(range(len(_RG_SUBS)), probs(), (0, 1)), "channels")
+    # wrapped again (construction history): "apply (apply G w.p. p) w.p. q" = apply G w.p. p*q; third level r too
+    def _rg_nested(p):
+        g = _RG_SUBS[p[0]][1]().with_probability(p[1])
+        g = cirq.RandomGateChannel(sub_gate=g, probability=p[2]) if p[4] == 0 else g.with_probability(p[2])
+        if p[3] is not None:
+            g = g.with_probability(p[3])
+        return g
+
+    family("RandomGateChannel[nested]", _rg_nested,
+           lambda p: K(G.k_random_gate(_RG_SUBS[p[0]][2](), p[1] * p[2] * (1 if p[3] is None else p[3])), _RG_SUBS[p[0]][3]),
+           lambda tier: prod(range(len(_RG_SUBS)), (0.1, 0.5, 1), (0.25, 0.5, 1), (None, 0.75), (0, 1)), "channels")
     family("KrausChannel",
            lambda p: cirq.KrausChannel(_kraus_sets()[p[0]][0], key=("k" if p[1] else None), validate=bool(p[1])),
            lambda p: K(_kraus_sets()[p[0]][0], _kraus_sets()[p[0]][1]),
